@@ -396,6 +396,48 @@ def extract_excepts(src: Path) -> str:
     return "\n".join(out)
 
 
+def extract_h11_tables(src: Path) -> str:
+    """The installed h11's state tables (data, `h11._state`); hypercorn itself is never imported."""
+    out = ["/- GENERATED by tools/extract.py from the installed h11 (h11._state tables) — do not edit -/", "namespace HC.Extracted.H11Tables",
+           "inductive HSt | idle | sendResponse | sendBody | done | mustClose | closed | error | mightSwitch | switched\nderiving Repr, DecidableEq",
+           "inductive Role | client | server\nderiving Repr, DecidableEq",
+           "inductive EvKey | request | requestClient | info | response | data | eom | connClosed | infoSwitchUpgrade | responseSwitchConnect\nderiving Repr, DecidableEq"]
+    import h11
+    from h11 import _state as st
+    from h11 import _events as ev
+    sname = {st.IDLE: "idle", st.SEND_RESPONSE: "sendResponse", st.SEND_BODY: "sendBody", st.DONE: "done", st.MUST_CLOSE: "mustClose",
+             st.CLOSED: "closed", st.ERROR: "error", st.MIGHT_SWITCH_PROTOCOL: "mightSwitch", st.SWITCHED_PROTOCOL: "switched"}
+    rname = {st.CLIENT: "client", st.SERVER: "server"}
+
+    def key(k):
+        if isinstance(k, tuple):
+            a, b = k
+            if a is ev.Request and b is st.CLIENT:
+                return "requestClient"
+            if a is ev.InformationalResponse and b is st._SWITCH_UPGRADE:
+                return "infoSwitchUpgrade"
+            if a is ev.Response and b is st._SWITCH_CONNECT:
+                return "responseSwitchConnect"
+            raise ValueError(repr(k))
+        return {ev.Request: "request", ev.InformationalResponse: "info", ev.Response: "response", ev.Data: "data", ev.EndOfMessage: "eom",
+                ev.ConnectionClosed: "connClosed"}[k]
+
+    rows = []
+    for role, table in st.EVENT_TRIGGERED_TRANSITIONS.items():
+        for s0, trans in table.items():
+            for k, s1 in trans.items():
+                rows.append(f"  (.{rname[role]}, .{sname[s0]}, .{key(k)}, .{sname[s1]})")
+    out.append("def eventTable : List (Role × HSt × EvKey × HSt) := [\n" + ",\n".join(rows) + "]")
+    rows = []
+    for (c, s_), changes in st.STATE_TRIGGERED_TRANSITIONS.items():
+        for role, s1 in changes.items():
+            rows.append(f"  (.{sname[c]}, .{sname[s_]}, .{rname[role]}, .{sname[s1]})")
+    out.append("def stateTable : List (HSt × HSt × Role × HSt) := [\n" + ",\n".join(rows) + "]")
+    out.append(f"def h11Version : String := {q(h11.__version__)}")
+    out += ["end HC.Extracted.H11Tables", ""]
+    return "\n".join(out)
+
+
 def main() -> int:
     ap = argparse.ArgumentParser()
     ap.add_argument("--repo", default="/repo")
@@ -404,7 +446,8 @@ def main() -> int:
     src = Path(a.repo) / "src" / "hypercorn"
     outd = Path(a.out)
     outd.mkdir(parents=True, exist_ok=True)
-    for name, fn in [("Cli", extract_cli), ("Consts", extract_consts), ("Guards", extract_guards), ("Excepts", extract_excepts)]:
+    for name, fn in [("Cli", extract_cli), ("Consts", extract_consts), ("Guards", extract_guards), ("Excepts", extract_excepts),
+                     ("H11Tables", extract_h11_tables)]:
         CURRENT[0] = name
         try:
             text = fn(src)
